@@ -65,6 +65,10 @@ pub struct Case {
     pub cfg: SvgCfg,
     pub writer: Writer,
     pub fault: Fault,
+    /// how the destination of a writable target is named: 0 absolute path in the scratch directory; 1 relative to the
+    /// current directory; 2 relative, in the sub-directory `out/`; 3 absolute, in that sub-directory. (The process
+    /// works inside its scratch directory, which holds `logo.png`; `out/` holds a DIFFERENT `logo.png`.)
+    pub dest: u8,
 }
 
 pub fn to_json(c: &Case) -> Value {
@@ -72,7 +76,7 @@ pub fn to_json(c: &Case) -> Value {
         Fault::ShortWrite(p) => json!({"short_write_permille": p}),
         f => json!(format!("{:?}", f)),
     };
-    json!({"build": c.build.to_json(), "svg": c.cfg.to_json(), "writer": if c.writer == Writer::Svg { "svg" } else { "png" }, "fault": fault})
+    json!({"build": c.build.to_json(), "svg": c.cfg.to_json(), "writer": if c.writer == Writer::Svg { "svg" } else { "png" }, "fault": fault, "dest": c.dest})
 }
 
 pub fn from_json(v: &Value) -> Option<Case> {
@@ -108,6 +112,7 @@ pub fn from_json(v: &Value) -> Option<Case> {
         cfg: SvgCfg::from_json(v.get("svg")?)?,
         writer: if v.get("writer")?.as_str()? == "svg" { Writer::Svg } else { Writer::Png },
         fault,
+        dest: v.get("dest").and_then(|x| x.as_u64()).unwrap_or(0) as u8,
     })
 }
 
@@ -178,6 +183,26 @@ fn scratch_dir() -> String {
     d
 }
 
+/// Image references the raster writer really loads: files relative to the current directory, a data URI, a missing file.
+pub const PNG_IMAGES: [&str; 5] = ["logo.png", "./logo.png", "imgs/mark.png", "missing.png", "@data"];
+
+/// Once per process: the scratch directory gets `logo.png` (red), `imgs/mark.png` (green) and `out/logo.png`,
+/// `out/imgs/mark.png` (blue - what a reference resolved against the DESTINATION's directory would find), and
+/// becomes the current directory, so that relative image references and relative destinations mean something.
+fn enter_scratch() {
+    static ONCE: std::sync::Once = std::sync::Once::new();
+    ONCE.call_once(|| {
+        let d = scratch_dir();
+        let _ = std::fs::create_dir_all(format!("{}/imgs", d));
+        let _ = std::fs::create_dir_all(format!("{}/out/imgs", d));
+        std::fs::write(format!("{}/logo.png", d), super::c18::solid_png([220, 0, 0])).expect("scratch write");
+        std::fs::write(format!("{}/imgs/mark.png", d), super::c18::solid_png([0, 200, 0])).expect("scratch write");
+        std::fs::write(format!("{}/out/logo.png", d), super::c18::solid_png([0, 0, 220])).expect("scratch write");
+        std::fs::write(format!("{}/out/imgs/mark.png", d), super::c18::solid_png([0, 0, 220])).expect("scratch write");
+        std::env::set_current_dir(&d).expect("chdir to scratch");
+    });
+}
+
 fn is_char_device(path: &str) -> bool {
     use std::os::unix::fs::FileTypeExt;
     std::fs::metadata(path).map(|m| m.file_type().is_char_device()).unwrap_or(false)
@@ -238,11 +263,30 @@ pub fn check(c: &Case, obs: &mut Obs) -> Result<(), Fail> {
             return Ok(());
         }
     };
-    let want = expected_bytes(c, &built)?;
+    enter_scratch();
+    let loads_image = c.writer == Writer::Png && c.cfg.image.is_some();
+    let want = match expected_bytes(c, &built) {
+        Ok(w) => w,
+        // with an image to load the rasteriser may refuse odd frame geometry: not this property's concern
+        Err(_) if loads_image => {
+            obs.label("in_memory_rendering_unavailable");
+            return Ok(());
+        }
+        Err(f) => return Err(f),
+    };
+    if loads_image {
+        obs.label(&format!("png_image:{}", if c.cfg.image.as_deref().map(|i| i.starts_with("data:")).unwrap_or(false) { "data_uri" } else { c.cfg.image.as_deref().unwrap_or("") }));
+    }
+    obs.label(&format!("dest:{}", ["absolute", "relative_cwd", "relative_subdir", "absolute_subdir"][c.dest as usize % 4]));
     let dir = scratch_dir();
     let uniq = format!("{:016x}", crate::engine::hash_value(&to_json(c)));
     let ext = if c.writer == Writer::Svg { "svg" } else { "png" };
-    let good = format!("{}/{}.{}", dir, uniq, ext);
+    let good = match c.dest % 4 {
+        0 => format!("{}/{}.{}", dir, uniq, ext),
+        1 => format!("{}.{}", uniq, ext),
+        2 => format!("out/{}.{}", uniq, ext),
+        _ => format!("{}/out/{}.{}", dir, uniq, ext),
+    };
     let _ = std::fs::remove_file(&good);
     let cls = c.fault.name();
     let wname = if c.writer == Writer::Svg { "svg" } else { "png" };
@@ -527,6 +571,7 @@ pub fn run(e: &'static Engine) {
                     cfg: SvgCfg::default(),
                     writer,
                     fault: f.clone(),
+                    dest: ((wi + fi) % 4) as u8,
                 });
                 jc.run_prop((wi * 100 + fi) as u64 + 1, &strat, 1, to_json, |c, o| {
                     o.label("part:enumerated_fault_classes");
@@ -547,19 +592,26 @@ pub fn run(e: &'static Engine) {
                 super::c12::cfg_strategy(),
                 prop_oneof![Just(Writer::Svg), Just(Writer::Png)],
                 fault_strategy(),
+                0u8..4,
+                0usize..8,
             )
-                .prop_flat_map(|(ci, fv, cfg, writer, fault)| {
+                .prop_flat_map(|(ci, fv, cfg, writer, fault, dest, img)| {
                     case_in_cell(Cell::from_index(ci), Force { mode: false, level: true, version: fv }, None).prop_map(move |(b, _)| {
                         let mut cfg = cfg.clone();
                         if writer == Writer::Png {
-                            // the raster pipeline would try to load the referenced image; keep it a pure function of the QR
-                            cfg.image = None;
+                            // the raster pipeline loads the referenced image: only references that mean something here
+                            // (files of the scratch directory by relative path, a data URI, a missing file), or none
+                            cfg.image = match (cfg.image.is_some(), PNG_IMAGES.get(img)) {
+                                (true, Some(&"@data")) => Some(super::c18::solid_png_uri([200, 100, 0])),
+                                (true, Some(i)) => Some(i.to_string()),
+                                _ => None,
+                            };
                             // CSS colour names the rasteriser may not know are irrelevant here
                             cfg.layers.iter_mut().for_each(|l| if matches!(l.1, Some(ColorSpec::Css(_))) { l.1 = None });
                             if matches!(cfg.module_color, Some(ColorSpec::Css(_))) { cfg.module_color = None; }
                             if matches!(cfg.background, Some(ColorSpec::Css(_))) { cfg.background = None; }
                         }
-                        Case { build: b, cfg, writer, fault: fault.clone() }
+                        Case { build: b, cfg, writer, fault: fault.clone(), dest }
                     })
                 });
             jc.run_prop(1 << 20, &strat, total / shards, to_json, |c, o| {
